@@ -6,6 +6,7 @@ From AV Require Import Base.Bytes Base.Outcome Hash.HashModel Tree.Heap Tree.Ops
 Open Scope string_scope.
 Open Scope list_scope.
 Open Scope N_scope.
+Set Default Timeout 120.
 
 (* ------------------------------------------------------------------ worlds with the same parent links *)
 Definition sp (w1 w2 : world) : Prop := w_next w2 = w_next w1 /\ forall i, parent_link w2 i = parent_link w1 i.
@@ -93,6 +94,29 @@ Ltac keeps_step :=
     | |- keeps (let '(_, _) := ?x in _) => destruct x
     end ].
 Ltac keeps_tac := repeat keeps_step.
+
+(* nf relative to a precondition on the initial world *)
+Definition nfP (P : world -> Prop) {A} (m : W A) : Prop :=
+  forall w e w', P w -> m w = Val (ER e, w') -> w' = w.
+Lemma nfP_of_nf P {A} (m : W A) : nf m -> nfP P m.
+Proof. intros H w e w' _ E. eapply H; eauto. Qed.
+Lemma nfP_bind_ro P {A B} (m : W A) (k : A -> W B) : ro m -> (forall a, nfP P (k a)) -> nfP P (wbind m k).
+Proof.
+  intros Hm Hk w e w' HP H. apply wbind_inv in H as [(a & w1 & H1 & H2) | (e' & H1 & _)].
+  - apply Hm in H1. subst w1. eapply Hk; eauto.
+  - eapply Hm; eauto.
+Qed.
+Ltac nfP_step :=
+  first
+  [ match goal with H : forall _, _ |- _ => apply H end
+  | apply nfP_of_nf; solve [nf_tac]
+  | apply nfP_bind_ro; [ solve [ro_tac] | intros ? ]
+  | match goal with
+    | |- nfP _ (match ?x with _ => _ end) => destruct x
+    | |- nfP _ (if ?b then _ else _) => destruct b
+    | |- nfP _ (let '(_, _) := ?x in _) => destruct x
+    end ].
+Ltac nfP_tac := repeat nfP_step.
 
 Ltac upd_simpl :=
   cbn [w_nodes w_next w_files w_models] in *;
@@ -272,6 +296,95 @@ Proof.
     rewrite Ep in Em. apply model_walk_mono in Em.
     eapply add_to_file_restricted_ok; [|exact Em|exact H].
     eapply sp_upd; eauto.
+Qed.
+
+(* ---------- create_named_sub_element: the SHORT-NAME of the new element can always be created *)
+Hypothesis tables_ok : tables_ok11 T.
+
+Lemma calc_range_fresh_ok parent name et version se sidx w e w' :
+  content_mode T et <> Val MCharacters ->
+  find_sub_element T et (SHORT T) version = Val (Some (se, sidx)) ->
+  calc_element_insert_range T (new_node parent name et) (SHORT T) version w = Val (ER e, w') -> False.
+Proof.
+  intros Hmode Hsn H. unfold calc_element_insert_range in H. cbn [new_node n_type n_content] in H.
+  wer H; [|noer]. winvs.
+  destruct (v =? MCharacters) eqn:Em; [apply N.eqb_eq in Em; congruence|].
+  wer H; [|noer]. winvs. rewrite Hsn in *.
+  match goal with Hx : Val _ = Val _ |- _ => injection Hx as <- end.
+  destruct ((v =? MBag) || (v =? MMixed)); cbn [range_loop] in H; winvs.
+Qed.
+
+Lemma create_short_inner_ok c cn pos version se sidx w e w' :
+  w_nodes w c = Some cn ->
+  find_sub_element T (n_type cn) (SHORT T) version = Val (Some (se, sidx)) ->
+  is_named_in_version T se version <> Val true ->
+  create_sub_element_inner T c (SHORT T) pos version w = Val (ER e, w') -> False.
+Proof.
+  intros Hc Hsn Hse H. unfold create_sub_element_inner in H.
+  wer H; [|noer]. winvs. same_nodes. wer H; [|noer]. winvs.
+  rewrite Hsn in *. match goal with Hx : Val _ = Val _ |- _ => injection Hx as <- end.
+  wer H; [|noer]. winvs. destruct v; [congruence|]. noer.
+Qed.
+
+Lemma create_named_inner_nf self name item pos m version w e w' :
+  AllocBound w ->
+  create_named_sub_element_inner T check_fn self name item pos m version w = Val (ER e, w') -> w' = w.
+Proof.
+  intros Hab H. unfold create_named_sub_element_inner in H.
+  destruct (is_empty item); [winvs; reflexivity|].
+  wro H. winvs. wro H. winvs.
+  match type of H with (match ?x with _ => _ end) _ = _ => destruct x as [(et, idx0)|] end; [|winvs; reflexivity].
+  wro H. winvs.
+  match goal with Hx : is_named_in_version T et version = Val ?b |- _ => destruct b; cbn [negb] in H end;
+    [|winvs; reflexivity].
+  wro H. winvs.
+  match goal with Hx : find_sub_element T et (SHORT T) version = Val ?v |- _ =>
+    destruct v as [(se, sidx)|]; rename Hx into Hsn end.
+  2:{ wro H. winvs. cbn [negb] in H. winvs. reflexivity. }
+  destruct (tables_ok et version se sidx) as [Hmode Hse]; [assumption|exact Hsn|].
+  wro H. match type of H with (if ?b then _ else _) _ = _ => destruct b end; [winvs; reflexivity|].
+  wro H. wro H.
+  match type of H with (match ?x with _ => _ end) _ = _ => destruct x end; [winvs; reflexivity|].
+  exfalso.
+  wer H; [|noer].
+  match goal with E : alloc _ _ = Val _ |- _ => apply alloc_inv in E as (E & ->); injection E as -> end.
+  wer H; [|noer].
+  match goal with E : content_insert _ _ _ _ = Val _ |- _ => rename E into Eci end.
+  assert (Hne : self <> w_next w) by (specialize (Hab _ _ Hn); lia).
+  assert (Hne' : w_next w <> self) by congruence.
+  unfold content_insert in Eci. wok Eci. winvs. upd_simpl.
+  match type of Eci with (if ?b then _ else _) _ = _ => destruct b end; [discriminate Eci|].
+  apply set_node_inv in Eci as (_ & ->).
+  wer H; [noer|].
+  match goal with E : raw_create_sub_element _ _ _ _ _ = Val _ |- _ => rename E into Er end.
+  unfold raw_create_sub_element in Er. wer Er; [|noer]. winvs. upd_simpl.
+  wer Er.
+  - destruct a2 as (rs, re). eapply create_short_inner_ok; [| |exact Hse|exact Er];
+      [cbn [w_nodes]; rewrite upd_neq by exact Hne'; apply upd_eq|exact Hsn].
+  - match goal with E : calc_element_insert_range _ _ _ _ _ = Val (ER _, _) |- _ =>
+      exact (calc_range_fresh_ok _ _ et version se sidx _ _ _ Hmode Hsn E) end.
+Qed.
+
+Lemma nfP_create_named_inner self name item pos m version :
+  nfP AllocBound (create_named_sub_element_inner T check_fn self name item pos m version).
+Proof. intros w e w' HP H. eapply create_named_inner_nf; eauto. Qed.
+
+Lemma nfP_e_create_named h name item : nfP AllocBound (e_create_named_sub_element T check_fn LATEST h name item).
+Proof.
+  unfold e_create_named_sub_element, raw_create_named_sub_element.
+  pose proof nfP_create_named_inner. nfP_tac.
+Qed.
+Lemma nfP_e_create_named_at h name item pos :
+  nfP AllocBound (e_create_named_sub_element_at T check_fn LATEST h name item pos).
+Proof.
+  unfold e_create_named_sub_element_at, raw_create_named_sub_element_at.
+  pose proof nfP_create_named_inner. nfP_tac.
+Qed.
+Lemma nfP_e_get_or_create_named h name item :
+  nfP AllocBound (e_get_or_create_named_sub_element T check_fn LATEST h name item).
+Proof.
+  unfold e_get_or_create_named_sub_element, raw_create_named_sub_element.
+  pose proof nfP_create_named_inner. nfP_tac.
 Qed.
 
 End Late.
